@@ -55,13 +55,6 @@ CHECKS = {
         technique="explicit TLA+ spec + TLC model checking + spec->code case export/replay + code->spec trace judging (ConditionalTrace.tla)",
         design_ref="6/C11",
     ),
-    "C20": dict(
-        category="model_checking",
-        text="TLC exhaustively checks (a) host_is_trusted, transcribed into TLA+, against the label-wise contract HostTrust!Verdicts for every (host, trusted list) pair of a label grammar (look-alikes, case variants, empty/over-long labels, ports, bracketed and bare literals) plus laws of the contract, and (b) an implementation-shaped model of DebuggedApplication's dispatch and PIN failure counter against the gate contract (eval only with evalex, trusted Host, secret, known frame and valid cookie or PIN off; console/pinauth/printpin only for trusted Hosts; lock-out absorbing) for the whole request product from every counter value 0..255; models of the pinned code and three broken variants must fail. Bound both ways: exported pairs/transitions are replayed on the real functions and a real DebuggedApplication (spy frame, frozen clock, hash_pin cookies), and recorded executions (entry neighbours, code point sweep, random histories, PIN-attempt sequences, a 260-step history) are judged line by line by the TLC trace spec, which reports model drift.",
-        note="Trusted: TLC, JSON trace encoding, recorder harness/hosttrust.py (observable extraction). IDNA ToASCII uninterpreted (recorded). Either verdict accepted for case/IDNA-equivalent/trailing-dot/odd-port/malformed-entry cases. Positive clauses only with PIN on. Exhaustive only within model bounds; traceback-page path, real frame objects, run_simple, multi-process counter not exercised.",
-        technique="TLA+ model checking (TLC) of contract + implementation-shaped models; spec->code replay of exported tables/LTS; TLC trace validation of recorded executions",
-        design_ref="6/C20",
-    ),
     "C18": dict(
         category="model_checking",
         text="TLC checks the per-context reference model of werkzeug.local (Local, LocalStack, LocalManager, release_local, LocalProxy) against the isolation laws of the property and checks an implementation-shaped heap-of-shared-references model (ContextVar -> dict/list reference, spawn copies references, copy-on-write mutators) against that contract for every interleaving of <= 3 contexts within the bounds (and for behaviours of any length in a small universe); nine broken variants of the heap model must be refuted. The contract's exported transition system is covered transition by transition on the real objects with contexts realised as copy_context() objects, lock-stepped real threads and hand-stepped asyncio tasks, plus seeded random schedules; after every step every live context's reads are judged by the TLC trace spec.",
@@ -152,6 +145,13 @@ CHECKS = {
         note="Trusted: TLC, the JSON trace encoding, the recorders/spies in harness/response.py. Exhaustive only within the model bounds (names X/x/Y, list length <= 3, item alphabet a/e-acute/empty/lone byte, 13 status codes); beyond that seeded sampling. Header names, status strings, freeze(), str-subclass values and Locations that urlsplit/IDNA reject are outside the claim. Shape histories: close exactly once is required for the body wrapped at finalisation and for iterables werkzeug itself consumed; iterables the application replaced or consumed are only checked for no double close. Exceptions: ValueError from get_response counts as refusal only when a header-bound argument contains CR/LF; HEAD lengths are compared with the GET twin. Open finding F101 (stale Content-Length after assigning the response attribute).",
         technique="TLA+ model checking (TLC) of mutator histories and the finalisation table + trace validation of real Headers/Response runs",
         design_ref="6/C05",
+    ),
+    "C20": dict(
+        category="model_checking",
+        text="TLC exhaustively checks (a) host_is_trusted, transcribed into TLA+, against the label-wise contract HostTrust!Verdicts for every (host, trusted list) pair of a label grammar (look-alikes, case variants, empty/over-long labels, ports, bracketed and bare literals) plus laws of the contract, and (b) an implementation-shaped model of DebuggedApplication's dispatch and PIN failure counter against the gate contract (eval only with evalex, trusted Host, secret, known frame and valid cookie or PIN off; console/pinauth/printpin only for trusted Hosts; lock-out absorbing) for the whole request product from every counter value 0..255; models of the pinned code and three broken variants must fail. Bound both ways: exported pairs/transitions are replayed on the real functions and a real DebuggedApplication (spy frame, frozen clock, hash_pin cookies), and recorded executions (entry neighbours, code point sweep, random histories, PIN-attempt sequences, a 260-step history) are judged line by line by the TLC trace spec, which reports model drift.; the X-Forwarded-* selection table of ProxyFix and the SERVER_NAME/SERVER_PORT fallback are specified in ProxyFix.tla, model-checked for their laws (client-prepended values never matter, selected host decides, bracketed literals intact), exported row by row and replayed on the real middleware, and composed with the trusted-host contract: Request(environ_after_ProxyFix, trusted_hosts).host/host_url/root_url accept only a host HostTrust!Verdicts admits for the selected forwarded host, and values a client puts in front of the proxies' values never turn a rejection into acceptance.",
+        note="Trusted: TLC, JSON trace encoding, recorder harness/hosttrust.py (observable extraction). IDNA ToASCII uninterpreted (recorded). Either verdict accepted for case/IDNA-equivalent/trailing-dot/odd-port/malformed-entry cases. Positive clauses only with PIN on. Exhaustive only within model bounds; traceback-page path, real frame objects, run_simple, multi-process counter not exercised. Usability (positive) clauses are checked on the model and reported as drift on the code, never as verdicts. ProxyFix: judged cases carry no quoted list items (quote/backslash only in client-prepended twin values, outcome changes there are drift); environ-key placement, URL texts, access_route and 'listed but rejected' are drift only.",
+        technique="TLA+ model checking (TLC) of contract + implementation-shaped models; spec->code replay of exported tables/LTS; TLC trace validation of recorded executions",
+        design_ref="6/C20",
     ),
     # --- END CHECKS (new entries go above this line) ---
 }
